@@ -113,7 +113,7 @@ func (sandbox *SSHSandbox) initSequence(envs commservices.Environments) (reader 
 		eofTag   = "EOF" + varutil.RandString(10, varutil.UpperAlphaBytes)
 	)
 	for key, value := range envs.All() {
-		initCode += key + "=$(cat <<" + eofTag + "\n" + value + "\n" + eofTag + "\n)\n"
+		initCode += key + "=$(cat <<'" + eofTag + "'\n" + value + "\n" + eofTag + "\n)\n"
 		initCode += "export " + key + "\n"
 	}
 	initCode += sandbox.entrypoint + "\n"
